@@ -1,6 +1,10 @@
 """Deterministic baton scheduler: exactly one thread runs at a time and the
 baton changes hands only at preemption points (formula begin/end hooks)."""
+import os
+import sys
 import threading
+
+PKG = os.sep + 'pycel' + os.sep
 
 
 class Deadlock(Exception):
@@ -54,8 +58,12 @@ class Baton:
             self.cond.notify_all()
 
 
-def run_pair(work1, work2, decide, observe, first=1):
+def run_pair(work1, work2, decide, observe, first=1, call_points=False):
     """run two callables on two fresh threads under the baton.
+
+    call_points: every call of a Python function defined in the pycel package is
+    a preemption point as well (a profile function installed on both threads),
+    which reaches the windows inside the loading of a formula's functions.
 
     work(tid) -> result; observe(tid, kind, formula, rest) is called at every
     hook event of thread tid (before the baton may change hands).
@@ -73,11 +81,22 @@ def run_pair(work1, work2, decide, observe, first=1):
         observe(tid, kind, formula, rest)
         baton.point(tid)
 
+    def prof(frame, event, arg):
+        if event == 'call' and PKG in frame.f_code.co_filename:
+            tid = baton.me()
+            if tid is not None and tid in baton.armed:
+                baton.point(tid)
+
     def runner(tid, work):
         baton.register(tid)
         try:
             baton.wait_turn(tid)
-            results[tid] = ('ok', work(tid))
+            if call_points:
+                sys.setprofile(prof)
+            try:
+                results[tid] = ('ok', work(tid))
+            finally:
+                sys.setprofile(None)
         except BaseException as exc:     # noqa
             results[tid] = ('exc', f'{type(exc).__name__}: {exc}')
         finally:
